@@ -1,0 +1,23 @@
+//go:build verif
+
+package statsd
+
+import (
+	"strings"
+
+	"github.com/spf13/viper"
+
+	"github.com/atlassian/gostatsd"
+)
+
+// VerifTagHandlerFromTOML builds the tag stage from configuration text the way the server does:
+// cmd/gostatsd reads the --config-path file into a viper (ReadInConfig) and statsd.Server hands
+// that viper to NewTagHandlerFromViper together with the default tags.
+func VerifTagHandlerFromTOML(text string, next gostatsd.PipelineHandler, tags gostatsd.Tags) (*TagHandler, error) {
+	v := viper.New()
+	v.SetConfigType("toml")
+	if err := v.ReadConfig(strings.NewReader(text)); err != nil {
+		return nil, err
+	}
+	return NewTagHandlerFromViper(v, next, tags), nil
+}
